@@ -318,210 +318,234 @@ Fixpoint attributes_transform (ln : nat) (qline : str) (marker : nat) (raws : li
       end
   end.
 
+(* what the prelude of one loop iteration computes: the source line, the text behind the asterisk, the column at which
+   that text starts, the indentation behind the asterisk *)
+Record lctx := { cx_ln : nat; cx_orig : str; cx_line : str; cx_co : nat; cx_indent : nat }.
+
+(* ---- the identifier *)
+Definition step_ident (cx : lctx) (code_before code_after : str) (block_line : nat) (st : lst) : lst :=
+  let ln := cx_ln cx in let original := cx_orig cx in let line := cx_line cx in let column_offset := cx_co cx in
+  let not_found (ds : list diag) : lst :=
+    {| l_blk := None; l_warned := true; l_indent := l_indent st; l_pindent := l_pindent st; l_part := None; l_cur := l_cur st;
+       l_rseen := l_rseen st;
+       l_diags := l_diags st ++ ds ++ (if l_warned st then [] else [mkd true 8 ln column_offset original]); l_exc := l_exc st |} in
+  match match_ident line with
+  | None => not_found []
+  | Some idn =>
+      let b0 := {| bk_name := id_name idn; bk_line := block_line; bk_anns := []; bk_apos := None; bk_params := []; bk_desc := None;
+                   bk_tags := []; bk_code_before := code_before; bk_code_after := code_after |} in
+      let found (b : blk) (ds : list diag) : lst :=
+        {| l_blk := Some b; l_warned := l_warned st; l_indent := l_indent st; l_pindent := cx_indent cx; l_part := Some PIdent;
+           l_cur := l_cur st; l_rseen := l_rseen st; l_diags := l_diags st ++ ds; l_exc := l_exc st |} in
+      match id_fields idn with
+      | Some (fc :: ft) =>
+          let f := fc :: ft in
+          let r := parse_annotations_d true ln original (column_offset + id_fstart idn) f None in
+          if po_success r then
+            if nonempty (strip (skipn (po_end r) f)) then not_found (po_diags r)
+            else
+              let w := match id_delim idn, po_anns r with
+                       | (None | Some []), _ :: _ => [mkd false 7 ln (column_offset + id_dstart idn) original]
+                       | _, _ => []
+                       end in
+              found (blk_with b0 (po_anns r) (po_apos r) [] None []) (po_diags r ++ w)
+          else found b0 (po_diags r)
+      | _ => found b0 []
+      end
+  end.
+
+(* ---- a parameter *)
+Definition step_param (cx : lctx) (cs : caps) (b : blk) (st : lst) : lst :=
+  let ln := cx_ln cx in let original := cx_orig cx in let line := cx_line cx in let column_offset := cx_co cx in
+  let pname := gtext g_parameter_parameter_name line cs in
+  let pfields := gtext g_parameter_fields line cs in
+  let fcol := (column_offset + gstart g_parameter_fields cs)%nat in
+  let marker := (gstart g_parameter_parameter_name cs + column_offset)%nat in
+  let d9 := match l_part st with
+            | Some PIdent | Some PParams => []
+            | _ => [mkd false 9 ln marker original]
+            end in
+  if str_eqb (py_lower pname) tag_returns then
+    let d10 := if l_rseen st then [mkd0 true 10 ln] else [] in
+    let '(tag, ds) := part_with_fields (new_part tag_returns ln) ln original fcol pfields in
+    {| l_blk := Some (blk_with b (bk_anns b) (bk_apos b) (bk_params b) (bk_desc b) (part_set (bk_tags b) tag));
+       l_warned := l_warned st; l_indent := l_indent st; l_pindent := cx_indent cx; l_part := Some PParams; l_cur := CurTag tag_returns;
+       l_rseen := true; l_diags := l_diags st ++ d9 ++ d10 ++ ds; l_exc := l_exc st |}
+  else
+    let varargs := str_eqb pname (s "Varargs"%string) || (ends_dots pname && negb (str_eqb pname [46; 46; 46])) in
+    let d11 := if varargs then [mkd false 11 ln marker original] else [] in
+    let pname' := if varargs then [46; 46; 46] else pname in
+    let d12 := if part_has (bk_params b) pname' then [mkd true 12 ln marker original] else [] in
+    let '(p, ds) := part_with_fields (new_part pname' ln) ln original fcol pfields in
+    {| l_blk := Some (blk_with b (bk_anns b) (bk_apos b) (part_set (bk_params b) p) (bk_desc b) (bk_tags b));
+       l_warned := l_warned st; l_indent := l_indent st; l_pindent := cx_indent cx; l_part := Some PParams; l_cur := CurParam pname';
+       l_rseen := l_rseen st; l_diags := l_diags st ++ d9 ++ d11 ++ d12 ++ ds; l_exc := l_exc st |}.
+
+(* ---- a deprecated tag that stands for an annotation ("Transfer: full", "Attributes: (a b)") *)
+Definition step_deprecated_tag (cx : lctx) (cs : caps) (b : blk) (st : lst) : lst :=
+  let ln := cx_ln cx in let original := cx_orig cx in let line := cx_line cx in let column_offset := cx_co cx in
+  let tlow := py_lower (gtext g_tag_tag_name line cs) in
+  let tfields := gtext g_tag_fields line cs in
+  let fcol := (column_offset + gstart g_tag_fields cs)%nat in
+  let marker := (gstart g_tag_tag_name cs + column_offset)%nat in
+  let d13 := mkd false 13 ln marker original in
+  let ann_name := replace_char sp 45 tlow in
+  if str_eqb tlow tag_attributes then
+    let '(r, _) := parse_fields_d false false ln line marker (strip tfields) None in
+    if po_success r then
+      let '(tr, dt) := attributes_transform ln line marker (po_raws r) [] in
+      match tr with
+      | None => add_diags st (d13 :: po_diags r ++ dt ++ [mkd true 14 ln marker original])
+      | Some [] => add_diags st (d13 :: po_diags r ++ dt)
+      | Some t =>
+          let '(pa, da) := parse_annotation_d ln original fcol (ann_name ++ sp :: strip t) in
+          match pa with
+          | Some (nm, v) =>
+              if match ann_get (bk_anns b) ann_attributes with Some v0 => ann_truthy v0 | None => false end then
+                add_diags st (d13 :: po_diags r ++ dt ++ da ++ [mkd true 15 ln marker original])
+              else
+                add_diags (set_blk st (blk_with b (ann_set (bk_anns b) nm v)
+                                                  (match bk_apos b with None => Some ln | x => x end)
+                                                  (bk_params b) (bk_desc b) (bk_tags b)))
+                          (d13 :: po_diags r ++ dt ++ da)
+          | None => add_diags st (d13 :: po_diags r ++ dt ++ da)
+          end
+      end
+    else add_diags st (d13 :: po_diags r)
+  else
+    let '(pa, da) := parse_annotation_d ln line fcol (ann_name ++ sp :: tfields) in
+    match pa with
+    | Some (nm, v) =>
+        add_diags (set_blk st (blk_with b (ann_set (bk_anns b) nm v) (match bk_apos b with None => Some ln | x => x end)
+                                          (bk_params b) (bk_desc b) (bk_tags b))) (d13 :: da)
+    | None => add_diags st (d13 :: da)
+    end.
+
+(* ---- a tag that is not a return value: Since, Deprecated, Stability (value and description), anything else (name only) *)
+Definition plain_tag_part (ln : nat) (original : str) (fcol : nat) (tlow tfields : str) : part * list diag * bool :=
+  let tag0 := new_part tlow ln in
+        match tfields with
+        | [] => (tag0, [], false)
+        | _ =>
+            let '(r, d) := parse_fields_d true true ln original fcol tfields None in
+            if po_success r then
+              let d20 := match po_anns r with [] => [] | _ => [mkd0 true 20 ln] end in
+              if str_eqb tlow tag_deprecated || str_eqb tlow tag_since then
+                match bmatch re_tagver d with
+                | Some c2 => (part_with tag0 [] None (Some (gtext g_tagver_description d c2)) (Some (gtext g_tagver_value d c2)),
+                              po_diags r ++ d20, false)
+                | None => (tag0, po_diags r ++ d20, true)
+                end
+              else if str_eqb tlow tag_stability then
+                match bmatch re_tagstab d with
+                | Some c2 => (part_with tag0 [] None (Some (gtext g_tagstab_description d c2))
+                                        (Some (py_capitalize (gtext g_tagstab_value d c2))),
+                              po_diags r ++ d20, false)
+                | None => (tag0, po_diags r ++ d20, true)
+                end
+              else (tag0, po_diags r ++ d20, false)
+            else (tag0, po_diags r, false)
+        end.
+
+(* ---- a tag *)
+Definition step_tag (cx : lctx) (cs : caps) (b : blk) (st0 : lst) : lst :=
+  let ln := cx_ln cx in let original := cx_orig cx in let line := cx_line cx in let column_offset := cx_co cx in
+  let tname := gtext g_tag_tag_name line cs in
+  let tlow := py_lower tname in
+  let tfields := gtext g_tag_fields line cs in
+  let fcol := (column_offset + gstart g_tag_fields cs)%nat in
+  let marker := (gstart g_tag_tag_name cs + column_offset)%nat in
+  let st := {| l_blk := l_blk st0; l_warned := l_warned st0; l_indent := l_indent st0; l_pindent := cx_indent cx; l_part := l_part st0;
+               l_cur := l_cur st0; l_rseen := l_rseen st0; l_diags := l_diags st0; l_exc := l_exc st0 |} in
+  if existsb (str_eqb tlow) deprecated_ann_tags then step_deprecated_tag cx cs b st
+  else if str_eqb tlow tag_description then
+    {| l_blk := Some (blk_with b (bk_anns b) (bk_apos b) (bk_params b) (add_line (bk_desc b) tfields) (bk_tags b));
+       l_warned := l_warned st; l_indent := l_indent st; l_pindent := l_pindent st; l_part := Some PDesc; l_cur := l_cur st;
+       l_rseen := l_rseen st; l_diags := l_diags st ++ [mkd false 16 ln marker original]; l_exc := l_exc st |}
+  else
+    let expected := match l_part st with
+                    | Some PDesc => true
+                    | Some PParams => negb (truthy (bk_desc b))
+                    | Some PIdent => match bk_params b with [] => negb (truthy (bk_desc b)) | _ => false end
+                    | Some PTags => true
+                    | None => false
+                    end in
+    let d17 := if expected then [] else [mkd false 17 ln marker original] in
+    if existsb (str_eqb tlow) return_tag_names then
+      let d18 := if l_rseen st then [mkd0 true 18 ln] else [] in
+      let '(tag, ds) := part_with_fields (new_part tag_returns ln) ln original fcol tfields in
+      {| l_blk := Some (blk_with b (bk_anns b) (bk_apos b) (bk_params b) (bk_desc b) (part_set (bk_tags b) tag));
+         l_warned := l_warned st; l_indent := l_indent st; l_pindent := l_pindent st; l_part := Some PTags; l_cur := CurTag tag_returns;
+         l_rseen := true; l_diags := l_diags st ++ d17 ++ d18 ++ ds; l_exc := l_exc st |}
+    else
+      let d19 := if part_has (bk_tags b) tlow then [mkd true 19 ln marker original] else [] in
+      let '(tag, ds, exc) := plain_tag_part ln original fcol tlow tfields in
+      {| l_blk := Some (blk_with b (bk_anns b) (bk_apos b) (bk_params b) (bk_desc b) (part_set (bk_tags b) tag));
+         l_warned := l_warned st; l_indent := l_indent st; l_pindent := l_pindent st; l_part := Some PTags; l_cur := CurTag tlow;
+         l_rseen := l_rseen st; l_diags := l_diags st ++ d17 ++ d19 ++ ds; l_exc := l_exc st || exc |}.
+
+(* ---- a continuation line of the identifier, the description, a parameter or a tag *)
+Definition step_cont (cx : lctx) (b : blk) (st : lst) : lst :=
+  let ln := cx_ln cx in let original := cx_orig cx in let column_offset := cx_co cx in
+  let line := if is_empty_line (cx_line cx) then cx_line cx else rstrip (cx_line cx) in
+  match l_part st with
+  | Some PIdent | Some PDesc | None =>
+      let try_anns := negb (truthy (bk_desc b)) && match l_part st with Some PIdent => true | _ => false end in
+      let r := parse_annotations_d true ln original column_offset line (Some (bk_anns b, bk_apos b)) in
+      if try_anns && po_success r && po_changed r then
+        add_diags (set_blk st (blk_with b (po_anns r) (po_apos r) (bk_params b) (bk_desc b) (bk_tags b))) (po_diags r)
+      else
+        add_diags (set_blk st (blk_with b (bk_anns b) (bk_apos b) (bk_params b) (add_line (bk_desc b) line) (bk_tags b)))
+                  (if try_anns then po_diags r else [])
+  | Some PParams | Some PTags =>
+      let upd (l : list part) (k : str) : list part * list diag :=
+        match part_get l k with
+        | None => (l, [])
+        | Some p =>
+            if truthy (pt_desc p) then (part_set l (part_with p (pt_anns p) (pt_apos p) (add_line (pt_desc p) line) (pt_value p)), [])
+            else
+              let '(r, d) := parse_fields_d true true ln original column_offset line (Some (pt_anns p, pt_apos p)) in
+              if po_success r && po_changed r then (part_set l (part_with p (po_anns r) (po_apos r) (Some d) (pt_value p)), po_diags r)
+              else (part_set l (part_with p (pt_anns p) (pt_apos p) (add_line (pt_desc p) line) (pt_value p)), po_diags r)
+        end in
+      match l_cur st with
+      | CurParam k => let '(ps, ds) := upd (bk_params b) k in
+                      add_diags (set_blk st (blk_with b (bk_anns b) (bk_apos b) ps (bk_desc b) (bk_tags b))) ds
+      | CurTag k => let '(ts, ds) := upd (bk_tags b) k in
+                    add_diags (set_blk st (blk_with b (bk_anns b) (bk_apos b) (bk_params b) (bk_desc b) ts)) ds
+      | CurNone => st
+      end
+  end.
+
+(* one iteration of the line loop *)
 Definition step (code_before code_after : str) (block_line : nat) (ln : nat) (line0 : str) (st : lst) : lst :=
-  let original := line0 in
   let bi := match bmatch re_indent line0 with Some cs => gtext g_indent_indentation line0 cs | None => [] end in
   let exc0 := match bmatch re_indent line0 with Some _ => false | None => true end in
-  let '(column_offset, line, d6) :=
+  let '(column_offset, d6) :=
     match bmatch re_asterisk line0 with
-    | Some cs => (gend 0 cs, skipn (gend 0 cs) line0,
-                  if nonempty (gtext g_asterisk_comment line0 cs) then [mkd true 6 ln (gstart g_asterisk_comment cs) original] else [])
-    | None => (0%nat, line0, [])
+    | Some cs => (gend 0 cs, if nonempty (gtext g_asterisk_comment line0 cs) then [mkd true 6 ln (gstart g_asterisk_comment cs) line0] else [])
+    | None => (0%nat, [])
     end in
+  let line := skipn column_offset line0 in
   let line_indent := indent_width (match bmatch re_indent line with Some cs => gtext g_indent_indentation line cs | None => [] end) in
+  let cx := {| cx_ln := ln; cx_orig := line0; cx_line := line; cx_co := column_offset; cx_indent := line_indent |} in
   let st := {| l_blk := l_blk st; l_warned := l_warned st; l_indent := bi :: l_indent st; l_pindent := l_pindent st; l_part := l_part st;
                l_cur := l_cur st; l_rseen := l_rseen st; l_diags := l_diags st ++ d6; l_exc := l_exc st || exc0 |} in
   match l_blk st with
-  | None =>
-      (* ---- the identifier *)
-      let not_found (st : lst) (ds : list diag) : lst :=
-        {| l_blk := None; l_warned := true; l_indent := l_indent st; l_pindent := l_pindent st; l_part := None; l_cur := l_cur st;
-           l_rseen := l_rseen st;
-           l_diags := l_diags st ++ ds ++ (if l_warned st then [] else [mkd true 8 ln column_offset original]); l_exc := l_exc st |} in
-      match match_ident line with
-      | None => not_found st []
-      | Some idn =>
-          let b0 := {| bk_name := id_name idn; bk_line := block_line; bk_anns := []; bk_apos := None; bk_params := []; bk_desc := None;
-                       bk_tags := []; bk_code_before := code_before; bk_code_after := code_after |} in
-          let found (b : blk) (ds : list diag) : lst :=
-            {| l_blk := Some b; l_warned := l_warned st; l_indent := l_indent st; l_pindent := line_indent; l_part := Some PIdent;
-               l_cur := l_cur st; l_rseen := l_rseen st; l_diags := l_diags st ++ ds; l_exc := l_exc st |} in
-          match id_fields idn with
-          | Some (fc :: ft) =>
-              let f := fc :: ft in
-              let r := parse_annotations_d true ln original (column_offset + id_fstart idn) f None in
-              if po_success r then
-                if nonempty (strip (skipn (po_end r) f)) then not_found st (po_diags r)
-                else
-                  let w := match id_delim idn, po_anns r with
-                           | (None | Some []), _ :: _ => [mkd false 7 ln (column_offset + id_dstart idn) original]
-                           | _, _ => []
-                           end in
-                  found (blk_with b0 (po_anns r) (po_apos r) [] None []) (po_diags r ++ w)
-              else found b0 (po_diags r)
-          | _ => found b0 []
-          end
-      end
+  | None => step_ident cx code_before code_after block_line st
   | Some b =>
       match bmatch re_parameter line with
-      | Some cs =>
-          (* ---- a parameter *)
-          let pname := gtext g_parameter_parameter_name line cs in
-          let pfields := gtext g_parameter_fields line cs in
-          let fcol := (column_offset + gstart g_parameter_fields cs)%nat in
-          let marker := (gstart g_parameter_parameter_name cs + column_offset)%nat in
-          let d9 := match l_part st with
-                    | Some PIdent | Some PParams => []
-                    | _ => [mkd false 9 ln marker original]
-                    end in
-          if str_eqb (py_lower pname) tag_returns then
-            let d10 := if l_rseen st then [mkd0 true 10 ln] else [] in
-            let '(tag, ds) := part_with_fields (new_part tag_returns ln) ln original fcol pfields in
-            {| l_blk := Some (blk_with b (bk_anns b) (bk_apos b) (bk_params b) (bk_desc b) (part_set (bk_tags b) tag));
-               l_warned := l_warned st; l_indent := l_indent st; l_pindent := line_indent; l_part := Some PParams; l_cur := CurTag tag_returns;
-               l_rseen := true; l_diags := l_diags st ++ d9 ++ d10 ++ ds; l_exc := l_exc st |}
-          else
-            let varargs := str_eqb pname (s "Varargs"%string) || (ends_dots pname && negb (str_eqb pname [46; 46; 46])) in
-            let d11 := if varargs then [mkd false 11 ln marker original] else [] in
-            let pname' := if varargs then [46; 46; 46] else pname in
-            let d12 := if part_has (bk_params b) pname' then [mkd true 12 ln marker original] else [] in
-            let '(p, ds) := part_with_fields (new_part pname' ln) ln original fcol pfields in
-            {| l_blk := Some (blk_with b (bk_anns b) (bk_apos b) (part_set (bk_params b) p) (bk_desc b) (bk_tags b));
-               l_warned := l_warned st; l_indent := l_indent st; l_pindent := line_indent; l_part := Some PParams; l_cur := CurParam pname';
-               l_rseen := l_rseen st; l_diags := l_diags st ++ d9 ++ d11 ++ d12 ++ ds; l_exc := l_exc st |}
+      | Some cs => step_param cx cs b st
       | None =>
-      if is_empty_line line && match l_part st with Some PIdent | Some PParams => true | _ => false end then
-        (* ---- the empty line that opens the description *)
-        {| l_blk := l_blk st; l_warned := l_warned st; l_indent := l_indent st; l_pindent := line_indent; l_part := Some PDesc;
-           l_cur := l_cur st; l_rseen := l_rseen st; l_diags := l_diags st; l_exc := l_exc st |}
-      else
-      let tagm := match bmatch re_tag line with
-                  | Some cs => if Nat.leb line_indent (l_pindent st) then Some cs else None
-                  | None => None
-                  end in
-      match tagm with
-      | Some cs =>
-          (* ---- a tag *)
-          let tname := gtext g_tag_tag_name line cs in
-          let tlow := py_lower tname in
-          let tfields := gtext g_tag_fields line cs in
-          let fcol := (column_offset + gstart g_tag_fields cs)%nat in
-          let marker := (gstart g_tag_tag_name cs + column_offset)%nat in
-          let st := {| l_blk := l_blk st; l_warned := l_warned st; l_indent := l_indent st; l_pindent := line_indent; l_part := l_part st;
-                       l_cur := l_cur st; l_rseen := l_rseen st; l_diags := l_diags st; l_exc := l_exc st |} in
-          if existsb (str_eqb tlow) deprecated_ann_tags then
-            let d13 := mkd false 13 ln marker original in
-            let ann_name := replace_char sp 45 tlow in
-            if str_eqb tlow tag_attributes then
-              let '(r, _) := parse_fields_d false false ln line marker (strip tfields) None in
-              if po_success r then
-                let '(tr, dt) := attributes_transform ln line marker (po_raws r) [] in
-                match tr with
-                | None => add_diags st (d13 :: po_diags r ++ dt ++ [mkd true 14 ln marker original])
-                | Some [] => add_diags st (d13 :: po_diags r ++ dt)
-                | Some t =>
-                    let '(pa, da) := parse_annotation_d ln original fcol (ann_name ++ sp :: strip t) in
-                    match pa with
-                    | Some (nm, v) =>
-                        if match ann_get (bk_anns b) ann_attributes with Some v0 => ann_truthy v0 | None => false end then
-                          add_diags st (d13 :: po_diags r ++ dt ++ da ++ [mkd true 15 ln marker original])
-                        else
-                          add_diags (set_blk st (blk_with b (ann_set (bk_anns b) nm v)
-                                                            (match bk_apos b with None => Some ln | x => x end)
-                                                            (bk_params b) (bk_desc b) (bk_tags b)))
-                                    (d13 :: po_diags r ++ dt ++ da)
-                    | None => add_diags st (d13 :: po_diags r ++ dt ++ da)
-                    end
-                end
-              else add_diags st (d13 :: po_diags r)
-            else
-              let '(pa, da) := parse_annotation_d ln line fcol (ann_name ++ sp :: tfields) in
-              match pa with
-              | Some (nm, v) =>
-                  add_diags (set_blk st (blk_with b (ann_set (bk_anns b) nm v) (match bk_apos b with None => Some ln | x => x end)
-                                                    (bk_params b) (bk_desc b) (bk_tags b))) (d13 :: da)
-              | None => add_diags st (d13 :: da)
-              end
-          else if str_eqb tlow tag_description then
-            {| l_blk := Some (blk_with b (bk_anns b) (bk_apos b) (bk_params b) (add_line (bk_desc b) tfields) (bk_tags b));
-               l_warned := l_warned st; l_indent := l_indent st; l_pindent := l_pindent st; l_part := Some PDesc; l_cur := l_cur st;
-               l_rseen := l_rseen st; l_diags := l_diags st ++ [mkd false 16 ln marker original]; l_exc := l_exc st |}
+          if is_empty_line line && match l_part st with Some PIdent | Some PParams => true | _ => false end then
+            (* the empty line that opens the description *)
+            {| l_blk := l_blk st; l_warned := l_warned st; l_indent := l_indent st; l_pindent := line_indent; l_part := Some PDesc;
+               l_cur := l_cur st; l_rseen := l_rseen st; l_diags := l_diags st; l_exc := l_exc st |}
           else
-            let expected := match l_part st with
-                            | Some PDesc => true
-                            | Some PParams => negb (truthy (bk_desc b))
-                            | Some PIdent => match bk_params b with [] => negb (truthy (bk_desc b)) | _ => false end
-                            | Some PTags => true
-                            | None => false
-                            end in
-            let d17 := if expected then [] else [mkd false 17 ln marker original] in
-            if existsb (str_eqb tlow) return_tag_names then
-              let d18 := if l_rseen st then [mkd0 true 18 ln] else [] in
-              let '(tag, ds) := part_with_fields (new_part tag_returns ln) ln original fcol tfields in
-              {| l_blk := Some (blk_with b (bk_anns b) (bk_apos b) (bk_params b) (bk_desc b) (part_set (bk_tags b) tag));
-                 l_warned := l_warned st; l_indent := l_indent st; l_pindent := l_pindent st; l_part := Some PTags; l_cur := CurTag tag_returns;
-                 l_rseen := true; l_diags := l_diags st ++ d17 ++ d18 ++ ds; l_exc := l_exc st |}
-            else
-              let d19 := if part_has (bk_tags b) tlow then [mkd true 19 ln marker original] else [] in
-              let tag0 := new_part tlow ln in
-              let '(tag, ds, exc) :=
-                match tfields with
-                | [] => (tag0, [], false)
-                | _ =>
-                    let '(r, d) := parse_fields_d true true ln original fcol tfields None in
-                    if po_success r then
-                      let d20 := match po_anns r with [] => [] | _ => [mkd0 true 20 ln] end in
-                      if str_eqb tlow tag_deprecated || str_eqb tlow tag_since then
-                        match bmatch re_tagver d with
-                        | Some c2 => (part_with tag0 [] None (Some (gtext g_tagver_description d c2)) (Some (gtext g_tagver_value d c2)),
-                                      po_diags r ++ d20, false)
-                        | None => (tag0, po_diags r ++ d20, true)
-                        end
-                      else if str_eqb tlow tag_stability then
-                        match bmatch re_tagstab d with
-                        | Some c2 => (part_with tag0 [] None (Some (gtext g_tagstab_description d c2))
-                                                (Some (py_capitalize (gtext g_tagstab_value d c2))),
-                                      po_diags r ++ d20, false)
-                        | None => (tag0, po_diags r ++ d20, true)
-                        end
-                      else (tag0, po_diags r ++ d20, false)
-                    else (tag0, po_diags r, false)
-                end in
-              {| l_blk := Some (blk_with b (bk_anns b) (bk_apos b) (bk_params b) (bk_desc b) (part_set (bk_tags b) tag));
-                 l_warned := l_warned st; l_indent := l_indent st; l_pindent := l_pindent st; l_part := Some PTags; l_cur := CurTag tlow;
-                 l_rseen := l_rseen st; l_diags := l_diags st ++ d17 ++ d19 ++ ds; l_exc := l_exc st || exc |}
-      | None =>
-          (* ---- a continuation line of the identifier, the description, a parameter or a tag *)
-          let line := if is_empty_line line then line else rstrip line in
-          match l_part st with
-          | Some PIdent | Some PDesc | None =>
-              let try_anns := negb (truthy (bk_desc b)) && match l_part st with Some PIdent => true | _ => false end in
-              let r := parse_annotations_d true ln original column_offset line (Some (bk_anns b, bk_apos b)) in
-              if try_anns && po_success r && po_changed r then
-                add_diags (set_blk st (blk_with b (po_anns r) (po_apos r) (bk_params b) (bk_desc b) (bk_tags b))) (po_diags r)
-              else
-                add_diags (set_blk st (blk_with b (bk_anns b) (bk_apos b) (bk_params b) (add_line (bk_desc b) line) (bk_tags b)))
-                          (if try_anns then po_diags r else [])
-          | Some PParams | Some PTags =>
-              let upd (l : list part) (k : str) : list part * list diag :=
-                match part_get l k with
-                | None => (l, [])
-                | Some p =>
-                    if truthy (pt_desc p) then (part_set l (part_with p (pt_anns p) (pt_apos p) (add_line (pt_desc p) line) (pt_value p)), [])
-                    else
-                      let '(r, d) := parse_fields_d true true ln original column_offset line (Some (pt_anns p, pt_apos p)) in
-                      if po_success r && po_changed r then (part_set l (part_with p (po_anns r) (po_apos r) (Some d) (pt_value p)), po_diags r)
-                      else (part_set l (part_with p (pt_anns p) (pt_apos p) (add_line (pt_desc p) line) (pt_value p)), po_diags r)
-                end in
-              match l_cur st with
-              | CurParam k => let '(ps, ds) := upd (bk_params b) k in
-                              add_diags (set_blk st (blk_with b (bk_anns b) (bk_apos b) ps (bk_desc b) (bk_tags b))) ds
-              | CurTag k => let '(ts, ds) := upd (bk_tags b) k in
-                            add_diags (set_blk st (blk_with b (bk_anns b) (bk_apos b) (bk_params b) (bk_desc b) ts)) ds
-              | CurNone => st
-              end
-          end
-      end
+            match bmatch re_tag line with
+            | Some cs => if Nat.leb line_indent (l_pindent st) then step_tag cx cs b st else step_cont cx b st
+            | None => step_cont cx b st
+            end
       end
   end.
 
